@@ -71,6 +71,9 @@ HelpLaw ==
 (* error kinds of every node (see Options.tla) *)
 ErrorKindLaw == Len(argv) <= KindLen => ErrorKindLawIn(Shapes[sid].p, argv)
 
+(* the state carried by results and missing errors of every node (see Options.tla) *)
+ErrorStateLaw == Len(argv) <= KindLen => ErrorStateLawIn(Shapes[sid].p, argv)
+
 (* the structural requirements on usage() are met by the design's own renderer (per shape; the
    usage text does not depend on argv) *)
 UsageModelOK == argv = <<>> => UsageReasons(UsageLines(Shapes[sid].p), Shapes[sid].p) = {}
